@@ -139,6 +139,7 @@ type Interp struct {
 	timerFirings      int
 	muOwner           map[string]int
 	initMode          bool
+	xmlDecodes        int
 }
 
 type PathResult struct {
